@@ -1037,7 +1037,7 @@ func ruleNsRoot(c *Ctx) []Obligation {
 		})
 		guard := false
 		for _, g := range guardsAt(l.Block()) {
-			if bo, okb := g.Cond.(*ssa.BinOp); okb && g.Branch && bo.Op == token.EQL {
+			if bo, okb := g.Cond.(*ssa.BinOp); okb && (g.Branch && bo.Op == token.EQL || !g.Branch && bo.Op == token.NEQ) {
 				if s, oks := constString(bo.Y); oks && s == "submodule" {
 					guard = true
 				}
